@@ -99,6 +99,22 @@ func propC07(p *Prog, r *Report) {
 			return found
 		})
 	}
+	if len(checks) == 0 {
+		// the guard may live in a package-local helper that is given the destination store
+		helpers := conflictHelpers(p, fi)
+		checks = f.Match(func(n *GNode) bool {
+			for c := range helpers {
+				if n.Ast.Pos() <= c.Pos() && c.End() <= n.Ast.End() {
+					for _, a := range c.Args {
+						if objOf(info, a) == dest {
+							return true
+						}
+					}
+				}
+			}
+			return false
+		})
+	}
 	pubs := f.Match(func(n *GNode) bool {
 		for _, c := range callsIn(n.Ast, false) {
 			if p.callIs(fi.Pkg, c, kStoreToTx) && len(c.Args) >= 1 && objOf(info, c.Args[0]) == dest {
@@ -163,7 +179,13 @@ func propC07(p *Prog, r *Report) {
 	}
 	for _, id := range checks {
 		for _, c := range callsIn(f.Nodes[id].Ast, false) {
-			if !p.callIs(fi.Pkg, c, kTxFile) {
+			isHelper := false
+			for hc := range conflictHelpers(p, fi) {
+				if hc == c {
+					isHelper = true
+				}
+			}
+			if !p.callIs(fi.Pkg, c, kTxFile) && !isHelper {
 				continue
 			}
 			hs, n := mustHeld(lr, c)
